@@ -522,3 +522,37 @@ func multiInstanceDocs() [][2]string {
 	}
 	return out
 }
+
+// multiInstanceProjects: the same fault once in each of 2..3 included files of identical layout
+// (names of equal length, so that the faults sit at equal offsets in their files): which one is
+// reported must not depend on map iteration order (C03).
+func multiInstanceProjects() []streamCase {
+	var out []streamCase
+	names := []string{"cats", "dogs", "pigs"}
+	templates := map[string]string{
+		"recursive-macro":    "# mixin\nMACRO @NAME\n(\n  200 any\n  PASTE @NAME\n)\n",
+		"undefined-paste":    "# mixin\nMACRO @NAME\n(\n  PASTE @noNAME\n)\nGET /NAME\n  PASTE @NAME\n",
+		"undefined-type":     "# mixin\nTYPE @NAME\n  {\n    \"r\": @noNAME\n  }\n",
+		"undefined-enum":     "# mixin\nTYPE @NAME\n  {\n    \"r\": 1 // {enum: @noNAME}\n  }\n",
+		"unused-path-param":  "# mixin\nGET /NAME/{id}\n  Path\n    {\n      \"id\": 1,\n      \"unNAME\": 2\n    }\n  200 any\n",
+		"nameless-macro-use": "# mixin\nMACRO @NAME\n(\n  PASTE\n)\n",
+	}
+	var kinds []string
+	for k := range templates {
+		kinds = append(kinds, k)
+	}
+	sort.Strings(kinds)
+	for _, k := range kinds {
+		for n := 2; n <= 3; n++ {
+			p := drv.Project{Root: "root.jst", Files: map[string]string{}}
+			root := "JSIGHT 0.3\n"
+			for _, nm := range names[:n] {
+				root += "INCLUDE " + nm + ".jst\n"
+				p.Files[nm+".jst"] = strings.ReplaceAll(templates[k], "NAME", nm)
+			}
+			p.Files["root.jst"] = root
+			out = append(out, streamCase{stream: "multi-files", label: fmt.Sprintf("%s-%d", k, n), proj: p, opt: drv.Options{FixedSeed: true}})
+		}
+	}
+	return out
+}
